@@ -64,6 +64,8 @@ pub fn gen_c18(tier: &str, seed: u64, out: &str) -> Value {
             LonLat::new(360.0 * rng.f64() - 180.0, z.asin() * RAD2DEG)
         };
         let res = (i % 2) as i32;
+        // every eighth point is written with a longitude alias (+-360, +-720): the face must not depend on it
+        let p = if i % 8 == 5 { LonLat::new(p.longitude() + [-720.0, -360.0, 360.0, 720.0][(i / 8) % 4], p.latitude()) } else { p };
         let id = match a5::lonlat_to_cell(p, res) { Ok(id) => id, Err(_) => { batch.push(json!({"chosen": -1, "best": 0, "second": 0, "margin_e12": 0})); continue; } };
         let chosen = deserialize(id).map(|c| c.origin_id as i64).unwrap_or(-1);
         let pp = p_of(p);
